@@ -256,7 +256,7 @@ def enum_structs(leaves, maxn):
     return out
 
 
-def enum_trees(ntasks_max=3, nseg_max=2, nkinds=2, modes=("ok",), bases=((0, 0),)):
+def enum_trees(ntasks_max=3, nseg_max=2, nkinds=2, modes=("ok",), bases=((0, 0),), child_nseg=None):
     """Complete family: every program whose tasks form a tree with <= ntasks_max tasks, each task with <=
     nseg_max yields, each yield a flat list of <= 2 leaves from {I(k), T(new child)}; for every kind priority
     assignment in 'bases' and flush mode in 'modes'.  Tasks are numbered in creation (DFS pre-) order, so
@@ -270,11 +270,12 @@ def enum_trees(ntasks_max=3, nseg_max=2, nkinds=2, modes=("ok",), bases=((0, 0),
         return opts
 
     # a task shape = list of yields, each yield = tuple of leaf kinds; children attached later in order
-    def shapes(budget):
+    def shapes(budget, is_root):
         """yield (list_of_yields, used_children) for one task given remaining child budget"""
         res = [([], 0)]
+        lim = nseg_max if (is_root or child_nseg is None) else child_nseg
         def rec(prefix, used, depth):
-            if depth == nseg_max:
+            if depth == lim:
                 return
             for n in (1, 2):
                 for combo in itertools.product(leaf_options(budget - used), repeat=n):
@@ -294,7 +295,7 @@ def enum_trees(ntasks_max=3, nseg_max=2, nkinds=2, modes=("ok",), bases=((0, 0),
             yield dict(tasks)
             return
         t = pending[0]
-        for ys, used in shapes(budget):
+        for ys, used in shapes(budget, t == 1):
             nxt = max(list(tasks.keys()) + pending) + 1
             new_children = []
             ys2 = []
@@ -337,3 +338,19 @@ if __name__ == "__main__":
     prof = sys.argv[1]
     ps = sample(prof, int(sys.argv[2]), int(sys.argv[3]))
     json.dump(ps, sys.stdout)
+
+
+def chain(depth, variant="plain"):
+    """task i awaits task i+1; the last one awaits a batch item ('batch'), or returns"""
+    tasks = []
+    for i in range(1, depth + 1):
+        if i == depth:
+            if variant == "batch":
+                tasks.append({"segs": [seg([], term("yield", S("I", 1))), seg([], term("return"))]})
+            else:
+                tasks.append({"segs": [seg([], term("return"))]})
+        else:
+            child = S("T", i + 1)
+            s = child if variant != "list" else S("Lst", 0, [child, S("N")])
+            tasks.append({"segs": [seg([], term("yield", s)), seg([], term("return"))]})
+    return program(tasks)
